@@ -500,6 +500,23 @@ class Builtins(Methods):
                 for a in accs[1:]:
                     n = z3.If(a[0] < n, a[0], n)
                 return (n, lambda k: Tup(tuple(a[1](k) for a in accs)), ("tuple",) + tuple(a[2] for a in accs))
+            if v.kind == "perm2":
+                a = self.seq_access(st, v.args[0])
+                if a is None:
+                    return None
+                n0, el0, et0 = a
+                if et0 is None:
+                    return (z3.IntVal(0), lambda k: None, None)
+                tag = fresh_id()
+                fi = z3.Function(f"perm_i!{tag}", z3.IntSort(), z3.IntSort())
+                fj = z3.Function(f"perm_j!{tag}", z3.IntSort(), z3.IntSort())
+                N = z3.Int(f"perm_n!{tag}")
+                st.created.append(N)
+                kq, aq, bq = z3.Int(f"k!pm{tag}"), z3.Int(f"a!pm{tag}"), z3.Int(f"b!pm{tag}")
+                st.assume(N >= 0, (N == 0) == (n0 < 2))
+                st.assume(z3.ForAll([kq], z3.Implies(z3.And(0 <= kq, kq < N), z3.And(0 <= fi(kq), fi(kq) < n0, 0 <= fj(kq), fj(kq) < n0, fi(kq) != fj(kq))), patterns=[fi(kq)]))
+                st.assume(z3.ForAll([aq, bq], z3.Implies(z3.And(0 <= aq, aq < n0, 0 <= bq, bq < n0, aq != bq), z3.Exists([kq], z3.And(0 <= kq, kq < N, fi(kq) == aq, fj(kq) == bq)))))
+                return (N, lambda k: Tup((el0(fi(k)), el0(fj(k)))), ("tuple", et0, et0))
             if v.kind == "chain":
                 accs = [self.seq_access(st, a) for a in v.args]
                 if any(a is None for a in accs):
